@@ -237,7 +237,12 @@ class Pool:
                                 weight_cp=0, method_kws={"ftol": 1e-9}),
                       "R": dict(model_key="hertz_para", segment=1),           # retract-segment fit
                       "F": dict(model_key="hertz_para", range_x=(5e-3, 6e-3)),  # no points: failed fit
+                      # interval bounds computed from the data (all seventeen significant digits matter)
+                      "P": dict(model_key="hertz_para", range_type="absolute"),
                       "nopre": dict(model_key="hertz_para", x_axis="tip position")}[variant]
+                if variant == "P":
+                    tp_ = np.asarray(idnt["tip position"], dtype=float)
+                    kw["range_x"] = (float(tp_.min()) * 0.6180339887498949, float(tp_.max()) * 0.7071067811865476)
                 if variant == "nopre":
                     idnt.apply_preprocessing(["compute_tip_position"])
                 idnt.fit_model(**kw)
@@ -347,7 +352,7 @@ def run(ctx):
                 if idd_known and rng.random() < 0.6:
                     variant = rng.choice([stored[idd_known[0]][2], stored[idd_known[0]][2], "B", "A", "R", "F", "A2"])
                 else:
-                    variant = rng.choice(["A", "A", "B", "C", "R", "N", "S"])
+                    variant = rng.choice(["A", "A", "B", "C", "R", "N", "S", "P", "P"])
                 rate, name, comment = rng.choice([0, 3, 7, 10, -1, 7.5, 2.25]), rng.choice(["ann", "bob"]), \
                     rng.choice(["", "ok", "noisy baseline"])
                 if plan:
